@@ -11,6 +11,7 @@ import (
 	"reflect"
 	"runtime"
 	"sort"
+	"strings"
 	"sync"
 	"sync/atomic"
 	"time"
@@ -369,7 +370,47 @@ func rawEntryPoints() []entryPoint {
 	}, z.Slice(z.String().Min(2).TestFunc(func(v any, ctx z.Ctx) bool { runtime.Gosched(); return true })))
 	vpre := z.Preprocess(func(v *int, ctx z.Ctx) (int, error) { return *v, nil }, z.Int().GT(5))
 	cust := z.CustomFunc(func(p *int, ctx z.Ctx) bool { return *p > 5 }, z.Message("too small"))
+	// results handed back through the sugar helpers: many issues, each with its own message (the text the helper
+	// returns is that of THIS call's issues, whatever other goroutines do to the issue pool meanwhile)
+	own := z.MessageFunc(func(e *z.ZogIssue, ctx z.Ctx) {
+		e.SetMessage(fmt.Sprintf("%s fails %s (this call's own text)", e.Path, e.Code))
+	})
+	many := z.Struct(z.Schema{"tags": z.Slice(z.String().Min(4, own)), "name": z.String().Min(9, own).Contains("@", own).HasPrefix("Z", own)})
+	manyIn := map[string]any{"name": "x", "tags": []any{}}
+	for k := 0; k < 120; k++ {
+		manyIn["tags"] = append(manyIn["tags"].([]any), fmt.Sprintf("t%d", k))
+	}
+	type manyT struct {
+		Name string
+		Tags []string
+	}
+	sortedMap := func(m map[string][]string) string {
+		ks := make([]string, 0, len(m))
+		for k := range m {
+			if k != "$first" { // which issue comes first follows the field visit order (known finding D25)
+				ks = append(ks, k)
+			}
+		}
+		sort.Strings(ks)
+		var sb strings.Builder
+		for _, k := range ks {
+			fmt.Fprintf(&sb, "%s=%q;", k, m[k])
+		}
+		return sb.String()
+	}
 	return []entryPoint{
+		{"Struct.Parse+SanitizeMapAndCollect", func() string { var d manyT; return sortedMap(z.Issues.SanitizeMapAndCollect(many.Parse(manyIn, &d))) }},
+		{"Struct.Parse+SanitizeMap+CollectMap", func() string {
+			var d manyT
+			m := many.Parse(manyIn, &d)
+			out := sortedMap(z.Issues.SanitizeMap(m))
+			z.Issues.CollectMap(m)
+			return out
+		}},
+		{"String.Parse+SanitizeListAndCollect", func() string {
+			var d string
+			return fmt.Sprintf("%q", z.Issues.SanitizeListAndCollect(z.String().Min(9, own).Contains("@", own).HasPrefix("Z", own).Email(own).URL(own).Parse("x", &d)))
+		}},
 		{"String.Parse", func() string { var d string; return canonList(z.String().Min(5).Email().Parse("ab", &d)) + d }},
 		{"String.Validate", func() string { d := "ab"; return canonList(z.String().Min(5).Validate(&d)) }},
 		{"Int.Parse", func() string { var d int; return canonList(z.Int().GT(5).LT(0).Parse(3, &d)) }},
